@@ -101,6 +101,8 @@ func main() {
 		runC13()
 	case "c14":
 		runC14()
+	case "c12":
+		runC12()
 	default:
 		fmt.Fprintln(os.Stderr, "unknown property", cmd)
 		os.Exit(2)
